@@ -1,4 +1,97 @@
-"""C09 — concurrent external-data writing is schedule-independent, bounded and live.  (work in progress header; see bottom of docstring for the log)
+"""C09 — concurrent external-data writing is schedule-independent, bounded and live.
+
+Decided by: Coq theorems (coq/theories/C09/Property.v, proofs in C09/Proofs1-5.v) about an executable
+labelled transition system (C09/Model.v) of _ExternalDataWriter._write_parallel/_write_serial,
+_write_tensor_with_budget_at, _ByteBudget and the sharded two-level driver of _write_external_tensors,
+whose budget arithmetic (Gen/C09Gen.v) is re-extracted from external_data.py on every run; the LTS is tied
+to the code by driving the REAL unload_from_model through chosen schedules under a cooperative
+threading/concurrent.futures runtime and checking inside Coq that every recorded event trace is a path of
+the LTS with the same observations.  On every schedule the property oracle (below) is evaluated; it is what
+produces concrete failing schedules.
+
+THE MODEL (C09/Model.v).  State: per task Unsub|Queued|Taken|Done(raised?); per worker Idle | Run task pc with
+pc in {CbIn, CbOut, Cb, CbUnOut e, CbUnIn e, TLock, Acq, Sleep, Write r, Rel r e, TUn e, Fin e} (exactly the
+synchronisation points of _write_one/_write_tensor/_write_tensor_with_budget_at, in the code's order: callback
+lock(s) -> callback -> unlock -> tensor-object lock -> budget.acquire -> materialise+write -> release (finally)
+-> unlock -> future completes); per pool (= one _ExternalDataWriter = one data file) a driver
+Not|Sub|Wait|Join e|Done e (ThreadPoolExecutor(), submit x n, as_completed, shutdown(cancel_futures=e), join)
+and a cancel flag; the caller (Wait | Deliv e); the budget (in_flight, oversized_active); explicit owners of the
+inner callback locks, the outer callback lock and the per-tensor-object locks; the file images; callback and
+write logs.  The condition variable has an explicit wait set: a thread whose guard is false goes to Sleep and
+is made runnable again only by the notify_all of a release (so a lost wake-up is a deadlock of the LTS).
+FIFO queue = lowest-index Queued task of the pool.  Serial inner writers (workers_per_shard = 1 or one tensor
+in the shard) are pools with one worker that stops dequeuing at the first failure.  Shard drivers start in
+shard order, at most `shard_workers` at a time.  `step : cfg -> state -> thread -> option state`; a schedule is a
+list of threads; `reachable` = closure of step from init.
+
+THEOREMS (all proved for ALL configurations and ALL schedules; Print Assumptions: closed under the global context)
+  C09_budget_inv        0 <= in_flight <= capacity; in_flight = sum of regular reservations held; oversized flag =
+                        number (0/1) of oversized holders; materialised bytes <= capacity + largest tensor
+  C09_cb_mutex          never two threads inside the callback (outer lock when sharded, else the single inner lock)
+  C09_cb_once           callback log has no duplicates; it is a permutation of all tensors when the save succeeds
+  C09_tensor_mutex      a tensor OBJECT is used by one thread at a time (lock .. acquire .. write .. release .. unlock)
+  C09_no_lost_wakeup    every thread sitting in condition.wait() has a false guard in the current state
+  C09_error_path        the caller gets the result only when all drivers joined and all workers are idle, with
+                        in_flight = 0 and not oversized; it is an exception iff some task raised
+  C09_terminates        a measure (lexicographic level/awake, packed) strictly decreases on every step; explicit
+                        bound (nw+1)(15 nt + 4 np + 1) on the length of any schedule
+  C09_deadlock_free     every reachable state where the caller has not got control back has an enabled thread
+                        (hypotheses: every pool has a worker, limit >= 1, indices in range)
+  C09_file_deterministic  on success every pool's file = the serial writer's file (C07 file model: write_all []
+                        jobs in declaration order), given pairwise disjoint ranges within a file (what C07_offsets
+                        proves for the layout)
+  Nothing is partial.  Examples in Property.v replay schedules recorded from the implementation (a sleeping
+  thread, an oversized grant, a shared tensor object, an error run).
+
+THE TIE.  (1) generate(): guards/updates of _ByteBudget.__init__/acquire/release and _reservation_bytes are
+taken expression by expression with tools/translate.py's expression translator; the control skeleton around
+them (which guard on which branch, `with self._condition`, the update after the wait, release's if/else followed
+by notify_all, acquire/try/finally release in _write_tensor_with_budget_at) is matched structurally and FAILS
+CLOSED (ck.gen_failed).  The generated functions are also run against the real _ByteBudget on a grid inside Coq.
+(2) onnx_ir.external_data.{threading, concurrent, _ByteBudget} are rebound to a cooperative runtime: real OS
+threads but exactly one holds the baton; every Lock acquire/release, Condition enter/wait, submit, result,
+as_completed, shutdown/join, every callback and every tensor tofile() is a scheduling point.  The chooser picks
+the next thread: exhaustive DFS with (abstract state, choice) pruning for tiny configurations, random and
+PCT-style priority schedules beyond; all from ck.rng; a run is a deterministic function of (config, choices,
+picks) and that is what replay files contain.  Each run records (thread, event, task, in_flight, oversized) per
+step, the callback order and the written files; case files make Coq check `run_agrees` (the trace is a path of
+the LTS, observations equal, final outcome/callback log/files equal).  (3) a soak with real preemptive threads
+(real threading / ThreadPoolExecutor, random sub-millisecond sleeps) checked by the oracle only.
+
+ORACLE (public behaviour of unload_from_model + the observable budget counter): the save terminates under the
+schedule (no deadlock, step bound), files byte-identical to the serial save (max_workers=None), no directories
+left, callback exactly once per tensor on success / at most once on failure and never entered by two threads,
+a tensor object never inside tofile() in two threads, in_flight <= max(cap,1), bytes inside tofile() at once
+<= cap + largest tensor, an exception is delivered iff something failed and only when no worker is running, with
+in_flight = 0 and not oversized.
+
+READINGS.  "materialised bytes" = bytes of tensors between acquire's return and release (model) / inside tofile()
+(oracle); for ExternalTensor min(len, chunk).  "exactly once per tensor" is required of successful saves; failing
+saves must not repeat a callback.  Files are compared for successful saves only (a failing sharded save leaves
+the completed shards behind in both the serial and the concurrent writer; C08's subject).  Zero-length tensors
+never reach the writer through the public API (nbytes > threshold), the model allows them anyway.
+
+MODELLED, NOT VERIFIED: the GIL; the contracts of threading.Lock/Condition, ThreadPoolExecutor (FIFO queue,
+shutdown(cancel_futures) drains the queue, join), as_completed; several r+b descriptors writing disjoint ranges
+of a preallocated file; tofile()/tobytes() (C04); the files_lock critical section (no blocking call inside) is
+treated as atomic (it IS a scheduling point of the runtime, its events are dropped from the trace); synthetic
+driver/dequeue events are inserted for serial inner writers (the for-loop has no executor); callback=None.
+The worker count per shard (workers_per_shard arithmetic) is predicted by the harness and cross-checked by the
+trace (a wrong count makes the model reject the trace), it is not part of the property.
+
+MUTANTS TRIED (scratch worktree /tmp/wt-C09, `VERIF_REPO=...`; all reported VIOLATION, unchanged tree quiet):
+  m1  release: notify_all() -> notify()                    structural fail-closed check; no failing input found
+      (with FIFO notify(1) every wasted wake-up still leaves a holder whose release wakes the next waiter, so the
+      property is not actually violated; reported as broken obligation, as the contract requires)
+  m2  acquire: drop `_oversized_active = True`             oracle: bytes materialised > cap + max (replay, 2 tensors)
+  m3  release not in finally                               oracle: deadlock M@join / W@cond:wait after a failing tensor
+  m4  shutdown(wait=False, cancel_futures=True)            oracle: exception delivered while a worker is running
+  m5  regular guard ignores `amount`                       translator rejects + oracle: budget counter 6 > capacity 4
+  m6  inner callback lock dropped                          oracle: two threads in the callback (+ trace rejected)
+  m7  tensor lock looked up by another key (no lock)       oracle: shared tensor object used by two threads
+  m8  shard writers get separate budgets                   oracle: 14 bytes materialised > 3 + 7 (two-level, serial inner)
+  m9  regular release does not notify                      translator rejects + oracle: deadlock W@cond:wait (lost wake-up)
+  m10 outer callback lock dropped (sharded)                oracle: two threads in the callback across shards
 """
 
 from __future__ import annotations
@@ -1302,17 +1395,27 @@ def soak(hc, plan, workdir, rng, runs) -> list[str]:
                 budgets.append(self)
         base_threads = threading.active_count()
         ed._ByteBudget = Budget
+        box = {}
+
+        def call(box=box, model=model, out=out, callback=callback):
+            try:
+                ed.unload_from_model(model, out, "m.data", max_shard_size_bytes=hc["max_shard"],
+                                     callback=callback, max_workers=hc["max_workers"],
+                                     max_in_flight_bytes=hc["cap"])
+                box["outcome"] = "ok"
+            except Exception as e:  # noqa: BLE001
+                box["outcome"] = "raise:" + type(e).__name__
         try:
             with _chunk(hc):
-                try:
-                    ed.unload_from_model(model, out, "m.data", max_shard_size_bytes=hc["max_shard"],
-                                         callback=callback, max_workers=hc["max_workers"],
-                                         max_in_flight_bytes=hc["cap"])
-                    outcome = "ok"
-                except Exception as e:  # noqa: BLE001
-                    outcome = "raise:" + type(e).__name__
+                # the save runs in its own (daemon) thread so that a real deadlock is reported, not suffered
+                th = threading.Thread(target=call, daemon=True)
+                th.start()
+                th.join(30.0)
         finally:
             ed._ByteBudget = orig_budget
+        if th.is_alive():
+            return [f"save does not terminate with real threads (no progress for 30 s): run {r}"]
+        outcome = box["outcome"]
         with mu:
             if st["in_cb"] or any(st["use"].values()):
                 st["problems"].append("save returned while a callback / write was running")
@@ -1537,7 +1640,7 @@ def run(ck) -> None:
                 col.record(hc, plan, run_coop(hc, plan, col.wd, pct_chooser(r) if i % 2 else random_chooser(r),
                                               pickfn=lambda n, r=r: r.randrange(n)), "corpus-random")
     # 3. exhaustive exploration of small configurations (all schedules modulo state equality)
-    exhaust_specs = [("tiny", 1500)] * 2 if not thorough else [("tiny", 12000)] * 6 + [("small", 12000)] * 4
+    exhaust_specs = [("tiny", 1500)] * 2 if not thorough else [("tiny", 12000)] * 4 + [("small", 8000)] * 3
     exhausted = []
     for k, (size, cap_runs) in enumerate(exhaust_specs):
         hc = gen_hc(rng, size, fail=(k % 2 == 1))
@@ -1557,7 +1660,7 @@ def run(ck) -> None:
             break
     ck.coverage["exhaustive_exploration"] = exhausted
     # 4. random and PCT schedules over wider configurations
-    n_cfg = 90 if not thorough else 1500
+    n_cfg = 90 if not thorough else 1000
     per_cfg = 10 if not thorough else 40
     for i in range(n_cfg):
         if col.failures and len(col.failures) > 3:
@@ -1598,6 +1701,8 @@ def run(ck) -> None:
     # 6. real preemptive threads
     soak_cfgs = 6 if not thorough else 60
     soak_runs = 12 if not thorough else 60
+    if col.failures:
+        soak_cfgs = 0              # already failing under a replayable schedule: report that
     for i in range(soak_cfgs):
         hc = gen_hc(rng, "large" if i % 2 else "twolevel")
         plan = col.plan(hc)
